@@ -12,15 +12,21 @@ import (
 
 // StSpec is the harness-side description of the ledger state.
 type StSpec struct {
-	StakeReg  map[int]bool   // stake credential (key index) registered, recorded deposit = KeyDeposit
-	Pools     map[int]bool   // pool (operator key index) registered
-	DReps     map[int]bool   // drep registered, recorded deposit = DRepDeposit
-	Rewards   map[int]uint64 // reward balance
+	StakeReg map[int]bool   // stake credential (key index) registered, recorded deposit = KeyDeposit
+	Pools    map[int]bool   // pool (operator key index) registered
+	DReps    map[int]bool   // drep registered, recorded deposit = DRepDeposit
+	Rewards  map[int]uint64 // reward balance
+	// PoolRetiring: pending retirement epoch of a REGISTERED pool (nil = none).
+	// It never changes the balance: a registered pool, retiring or not, pays no
+	// new deposit when it re-registers.
+	PoolRetiring map[int]*uint64
+	// Committee: cold credential (key index) -> resigned? (absent = not a member)
+	Committee map[int]bool
 	NoUtxoFor map[string]bool
 }
 
 func newStSpec() *StSpec {
-	return &StSpec{StakeReg: map[int]bool{}, Pools: map[int]bool{}, DReps: map[int]bool{}, Rewards: map[int]uint64{}}
+	return &StSpec{StakeReg: map[int]bool{}, Pools: map[int]bool{}, DReps: map[int]bool{}, Rewards: map[int]uint64{}, PoolRetiring: map[int]*uint64{}, Committee: map[int]bool{}}
 }
 
 type Bal struct {
